@@ -4,7 +4,7 @@ SPEC = {
     "components": {"1": "outcome of the call (proceeds / rejected by a limit check / bad input)",
                    "2": "statements, arguments and transaction brackets received by the server",
                    "3": "set of batched callers that reached the batch function", "4": "generated case violates the well-formedness hypotheses of the theorems (harness defect)"},
-    "corr_name": "Sql.Model (run, run_batched) vs sqlgen.DB methods on a fake database/sql driver",
+    "corr_name": "Sql.Model (run, run_batched, run_batched_multi, run_seq) vs sqlgen.DB methods on a fake database/sql driver",
     "coq_modules": ["Sql.Model", "Sql.ModelCheck"],
     "harness_timeout": {"quick": 600, "thorough": 3000},
     "search": {"n": 6000, "timeout": 600},
@@ -15,13 +15,15 @@ SPEC = {
         "columns without binary/string/json tags and values that do not implement driver.Valuer (C13 covers those); no time.Time values; floats are multiples of 1/4",
     ],
     "assumptions": [
-        "free-text SelectOptions.Where is developer-written and cannot unbalance the parentheses IncludeFilter puts around it; the confinement predicate looks at the filter part only",
-        "Go's != on two []byte values panics before any statement is issued: counted as a rejection",
-        "an UPDATE / UPSERT 'carries' the limit values (in SET or in the inserted tuple); when the limit column is not part of the primary key the WHERE clause of UPDATE does not restrict it (stated as a separate theorem under the hypothesis that the limit columns are primary-key columns)",
+        "free-text SelectOptions.Where is developer-written and cannot unbalance the parentheses IncludeFilter puts around it; the confinement claim is about the filter part: whatever truth value the free text takes, a selected row satisfies the filter (c12_free_text_cannot_widen_the_filter)",
+        "the model follows C12-fix-1: limit values of uncomparable types ([]byte) are compared with reflect.DeepEqual; on a tree without the fix such calls panic, which the oracle reports as c12-limit-check-panics-on-uncomparable-value",
+        "an UPDATE / UPSERT 'carries' the limit values (in SET or in the inserted tuple), which is what the property text asks; when the limit column is not part of the primary key the WHERE clause of UPDATE does not restrict it (separate theorem for primary-key limit columns; committed changes to rows that lay outside the limit are counted in the histogram, not failed)",
+        "a dynamic limit without ShouldContinueOnError is not enforced by sqlgen (db.go requires both callbacks); the property speaks of a callback that rejects, so such handles are modelled as unrestricted and counted in the histogram",
+        "batches that mix handles: the claim is per value tuple (each is the filter of a caller that passed the checks of its own handle), not per statement",
     ],
     "manifest": {
         "text": "Coq theorems (Props/C12.v) over an executable model of every sqlgen.DB method, the limit checks and the batched fetch: for all limits, tables, contexts and operations every statement issued is confined to the limit and a non-complying call is rejected having issued nothing; the model is run against sqlgen on a fake database/sql driver on generated cases on every run (correspondence) and the confinement of every recorded statement is checked directly by parsing it (oracle).",
-        "note": "Trusted: Coq kernel + vm_compute; the hand-written model (tied to the code only by the correspondence check); the Go harness and the fake SQL server. Columns with binary/string/json tags, custom driver.Valuer types and time values are outside the model; free-text SelectOptions.Where is opaque.",
+        "note": "Trusted: Coq kernel + vm_compute; the hand-written model (tied to the code only by the correspondence check); the Go harness and the fake SQL server. Columns with binary/string/json tags, custom driver.Valuer types and time values are outside the model; free-text SelectOptions.Where is opaque (the claim is about the filter part). Covers single methods incl. SelectOptions and Count, bulk methods, concurrent batched callers on one or several handles sharing the batch function, and method sequences in one transaction.",
         "technique": "Coq proof over executable model + differential correspondence check (vm_compute) + property oracle on the statements received by a fake SQL driver",
     },
 }
